@@ -47,18 +47,30 @@ def volume_record(rng, b, fam, orient, dyadic=False):
                         ok = False
             if ok:
                 break
-    traj = Trajectory(species=[Species('Li')] * A, coords=k / N + rng.integers(-1, 2, size=k.shape), lattice=Lattice(M),
-                      time_step=1e-15)
-    gen.perturb(traj, rng)
-    if rng.random() < 0.3:
+    raw = k / N + rng.integers(-1, 2, size=k.shape)
+    scenario = str(rng.choice(['plain', 'plain', 'asked-before', 'earlier-answer-edited', 'extended-in-between']))
+    if scenario == 'extended-in-between' and T >= 2:
+        # the volume of the first frames is asked for, the trajectory is extended in place, the volume is asked for again
+        cut = int(rng.integers(1, T))
+        traj = Trajectory(species=[Species('Li')] * A, coords=raw[:cut], lattice=Lattice(M), time_step=1e-15)
         traj.to_volume(resolution=res)
-    vol = trajectory_to_volume(traj, resolution=res) if rng.random() < 0.5 else traj.to_volume(resolution=res)
+        traj.extend(Trajectory(species=[Species('Li')] * A, coords=raw[cut:], lattice=Lattice(M), time_step=1e-15))
+    else:
+        traj = Trajectory(species=[Species('Li')] * A, coords=raw, lattice=Lattice(M), time_step=1e-15)
+    gen.perturb(traj, rng)
+    if scenario == 'asked-before':
+        traj.to_volume(resolution=res)
+    if scenario == 'earlier-answer-edited':
+        v0 = traj.to_volume(resolution=res)              # what a caller does with ITS volume is its own business
+        np.asarray(v0.data)[...] = 0
+        del v0
+    vol = trajectory_to_volume(traj, resolution=res) if (rng.random() < 0.5 and scenario == 'plain') else traj.to_volume(resolution=res)
     data = np.asarray(vol.data)
     nz = np.argwhere(data > 0)
     unit = 100000
     rec = {'b': b, 'act': 'Volume', 'N': N, 'pos': np.mod(k, N).tolist(), 'L': [L * unit for L in lens], 'res': int(round(res * unit)),
            'dims': [int(x) for x in data.shape], 'cells': [[int(x), int(y), int(z), int(data[x, y, z])] for x, y, z in nz],
-           'total': int(data.sum()), 'meta': {'family': fam, 'orientation': orient, 'resolution': res,
+           'total': int(data.sum()), 'meta': {'family': fam, 'orientation': orient, 'resolution': res, 'scenario': scenario,
                                               'voxel_size': [float(x) for x in vol.voxel_size]}}
     # voxel_size is L / dims (checked by ResolutionBand through dims); alpha check that the reported size matches
     vs_ok = all(abs(vs * d - L) < 1e-9 * L for vs, d, L in zip(vol.voxel_size, data.shape, lens))
